@@ -563,3 +563,27 @@ Proof.
 Qed.
 
 End Retry.
+
+(* ------------------------------------------------------------------ non-vacuity *)
+(* three one-metric documents, batch size 1, schedule refuse / accept / refuse /
+   accept: the second and the third Add each meet a refusal and are issued again;
+   both refusals are consumed, two records reach the writer; without the retry the
+   second document is lost *)
+Definition rt_doc (x : Z) : doc := [([120]%N, VInt64 x)].
+Definition rt_docs : list (doc * Z) := [(rt_doc 1, 0); (rt_doc 2, 0); (rt_doc 3, 0)].
+Definition rt_faults : list fault := [FError; FNone; FError; FNone].
+
+Theorem retry_example :
+  no_short rt_faults /\ no_adj_err rt_faults = true /\
+  let r1 := adds_with_retry sw_deflate (new_coll KStream 1, mkWriter [] rt_faults false) rt_docs in
+  let r1' := adds_with_retry_once sw_deflate (new_coll KStream 1, mkWriter [] rt_faults false) rt_docs in
+  let r2 := run sw_deflate (new_coll KStream 1, mkWriter [] [] false) (add_ops_of rt_docs) in
+  snd r1 = [BAdd ROk; BAdd ROk; BAdd ROk] /\ r1' = r1 /\
+  w_faults (snd (fst r1)) = [] /\ length (w_log (snd (fst r1))) = 2%nat /\
+  fst (fst r1) = fst (fst r2) /\ w_log (snd (fst r1)) = w_log (snd (fst r2)) /\
+  snd (run sw_deflate (new_coll KStream 1, mkWriter [] rt_faults false) (add_ops_of rt_docs)) =
+    [BAdd ROk; BAdd RFlush; BAdd ROk].
+Proof.
+  split; [repeat constructor|]. split; [reflexivity|]. cbv zeta.
+  repeat split; vm_compute; reflexivity.
+Qed.
